@@ -361,8 +361,18 @@ def run_model(lines, timeout=1800):
     ok, log = build_ocaml()
     if not ok:
         raise BuildError("ocaml/extraction build failed:\n" + log[-2000:])
+    # the extracted enumerators recurse over schedule prefixes (not tail-recursive): give the driver a
+    # large stack, the default 8 MB overflows on the thorough-tier enumerations
+    def _big_stack():
+        import resource
+        for lim in (resource.RLIM_INFINITY, 4 << 30, 1 << 30):
+            try:
+                resource.setrlimit(resource.RLIMIT_STACK, (lim, resource.getrlimit(resource.RLIMIT_STACK)[1]))
+                return
+            except (ValueError, OSError):
+                continue
     p = subprocess.run([os.path.join(OCAML, "driver")], input="\n".join(lines) + "\n",
-                       stdout=subprocess.PIPE, stderr=subprocess.PIPE, text=True, timeout=timeout)
+                       stdout=subprocess.PIPE, stderr=subprocess.PIPE, text=True, timeout=timeout, preexec_fn=_big_stack)
     if p.returncode != 0:
         raise RuntimeError("model driver failed: " + p.stderr[-2000:])
     out = p.stdout.split("\n")
